@@ -260,6 +260,15 @@ class World:
     def generate(self):
         with open(self.tmpl_path) as f:
             tl = f.read().split("\n")
+        # //@include <path relative to the template's directory>
+        k = 0
+        while k < len(tl):
+            if tl[k].strip().startswith("//@include "):
+                inc = os.path.join(os.path.dirname(self.tmpl_path), tl[k].strip().split(None, 1)[1])
+                with open(inc) as f:
+                    tl[k:k + 1] = f.read().rstrip("\n").split("\n")
+            else:
+                k += 1
         i = 0
         while i < len(tl):
             ln = tl[i]
@@ -342,6 +351,17 @@ class World:
             text = re.sub(r"^(\s+)(pub\s+)?([a-z_][a-z0-9_]*\s*:)", r"\1pub \3", text, flags=re.M)
         if not text.startswith("pub"):
             text = "pub " + text
+        mt = re.match(r"(pub\s+struct\s+[A-Za-z0-9_]+\s*(?:<[^()]*>)?\s*)\((.*)\)\s*;\s*$", text, flags=re.S)
+        if mt and d.get("kind", "struct") == "struct":
+            fields = ["pub " + re.sub(r"^pub\s+", "", f) for f in _split_top_commas(mt.group(2))]
+            text = mt.group(1) + "(" + ", ".join(fields) + ");"
+        if "subst" in d:
+            for pair in d["subst"].split(";;"):
+                a, b = pair.split("=>")
+                if a not in text:
+                    raise ExtractError(f"struct {d['name']}: D13 substitution source {a!r} not found (anchor lost)")
+                text = text.replace(a, b)
+                log.append(f"D13 {a}=>{b}")
         if "header" in d:
             # replace the header (generics/bounds) by the world's
             k = text.index("{")
